@@ -10,6 +10,7 @@ CHECKS="${*:-$PROP}"
 WT="/tmp/seed-$SEED"; OUT="/tmp/seed-out/$SEED"
 cd "$(dirname "$0")/.." || exit 2
 [ -f "$OUT/patch.diff" ] && [ -f "$OUT/demo.py" ] || { echo "missing deliverables in $OUT"; exit 2; }
+[ -d "$WT" ] || git -C /repo worktree add --detach "$WT" HEAD >/dev/null 2>&1 || { echo "cannot create $WT"; exit 2; }
 git -C "$WT" checkout -q -- . && git -C "$WT" apply "$OUT/patch.diff" || { echo "patch does not apply"; exit 2; }
 (cd "$WT" && /venv/bin/python setup.py build_ext --inplace >/dev/null 2>&1) || { echo "build failed"; exit 2; }
 timeout 300 /venv/bin/python "$OUT/demo.py" "$WT" >"$OUT/demo_changed.log" 2>&1; rc_changed=$?
